@@ -427,19 +427,37 @@ func c03RecorderInternals(c *Ctx, fn *ssa.Function, recorder *ssa.Alloc, resultC
 			bad = append(bad, "the emptiness guard tests "+failField+" but the result carries "+ff)
 		}
 	}
-	// construction: the single store into the recorder variable
-	af := p.allocInfo(recorder)
-	if len(af.stores) != 1 {
-		bad = append(bad, "the recorder variable is assigned more than once")
-	} else if nameField != "" {
-		ctorCall, _ := asCall(af.stores[0].Val)
-		var ctor *ssa.Function
-		if ctorCall != nil {
-			ctor = staticCallee(ctorCall.Common())
+	// construction: every definition of the recorder's name that can be in effect when the result is
+	// taken gives it <phase parameter>.Name — the variable assigned as a whole from a constructor call
+	// or a literal, or a literal built in place (field stores); one of the definitions is always
+	// executed before the result is taken, and no method called on the recorder renames it.
+	if nameField != "" {
+		isPhaseName := func(v ssa.Value) bool {
+			root, ok := p.pfFieldLoad(v, "Name")
+			if !ok {
+				return false
+			}
+			prm, isP := p.pfRootValue(root).(*ssa.Parameter)
+			return isP && namedTypeString(prm.Type()) == pfTypPhase
 		}
-		if ctor == nil || ctor.Blocks == nil {
-			bad = append(bad, "the recorder is not built by a constructor call")
-		} else {
+		var defs []ssa.Instruction
+		for _, st := range p.allocInfo(recorder).stores {
+			defs = append(defs, st)
+			if fields, _, isLit := compositeFields(st.Val); isLit {
+				if nv := fields[nameField]; nv == nil || !isPhaseName(nv) || fields[nameField+"#dup"] != nil {
+					bad = append(bad, "the recorder literal at "+p.IPos(st)+" is not named <phase parameter>.Name")
+				}
+				continue
+			}
+			ctorCall, _ := asCall(st.Val)
+			var ctor *ssa.Function
+			if ctorCall != nil {
+				ctor = staticCallee(ctorCall.Common())
+			}
+			if ctor == nil || ctor.Blocks == nil {
+				bad = append(bad, "the recorder is not built by a constructor call or a literal")
+				continue
+			}
 			c.Visit(ctor)
 			pi := -1
 			for _, rc := range p.pfReturnCases(ctor) {
@@ -453,17 +471,49 @@ func c03RecorderInternals(c *Ctx, fn *ssa.Function, recorder *ssa.Alloc, resultC
 			}
 			if pi < 0 {
 				bad = append(bad, "constructor does not initialise "+nameField+" from a parameter")
-			} else {
-				arg := ctorCall.Common().Args[pi]
-				root, ok := p.pfFieldLoad(arg, "Name")
-				okPhase := false
-				if ok {
-					if prm, isP := p.pfRootValue(root).(*ssa.Parameter); isP && namedTypeString(prm.Type()) == pfTypPhase {
-						okPhase = true
+			} else if arg := ctorCall.Common().Args[pi]; !isPhaseName(arg) {
+				bad = append(bad, "the recorder is named "+p.describe(arg)+", not <phase parameter>.Name")
+			}
+		}
+		for _, r := range referrersOf(recorder) {
+			fa, isFA := r.(*ssa.FieldAddr)
+			if !isFA || fieldName(fa.X.Type(), fa.Field) != nameField {
+				continue
+			}
+			for _, rr := range referrersOf(fa) {
+				if st, isSt := rr.(*ssa.Store); isSt && st.Addr == ssa.Value(fa) {
+					defs = append(defs, st)
+					if !isPhaseName(st.Val) {
+						bad = append(bad, "the recorder is named "+p.describe(st.Val)+" at "+p.IPos(st)+", not <phase parameter>.Name")
 					}
 				}
-				if !okPhase {
-					bad = append(bad, "the recorder is named "+p.describe(arg)+", not <phase parameter>.Name")
+			}
+		}
+		always := false
+		for _, d := range defs {
+			db, rb := d.Block(), resultCall.Block()
+			if (db == rb && instrIndex(d) < instrIndex(resultCall)) || (db != rb && db.Dominates(rb)) {
+				always = true
+			}
+		}
+		switch {
+		case len(defs) == 0:
+			bad = append(bad, "no definition of the recorder's "+nameField+" found")
+		case !always:
+			bad = append(bad, "the recorder's "+nameField+" may still be unset when the result is taken")
+		}
+		for _, cc := range callsIn(fn) {
+			callee := staticCallee(cc.Common)
+			if callee == nil || callee.Blocks == nil || len(callee.Params) == 0 || callRecv(cc.Common) != ssa.Value(recorder) {
+				continue
+			}
+			for _, b := range callee.Blocks {
+				for _, in := range b.Instrs {
+					if st, isSt := in.(*ssa.Store); isSt {
+						if fa, isFA := st.Addr.(*ssa.FieldAddr); isFA && fa.X == ssa.Value(callee.Params[0]) && fieldName(fa.X.Type(), fa.Field) == nameField {
+							bad = append(bad, calleeName(cc.Common)+" renames the recorder at "+p.IPos(st))
+						}
+					}
 				}
 			}
 		}
